@@ -63,6 +63,15 @@ def templates(backend: str, s) -> List[str]:
         f"ds.Select(lambda e: {J}.Where(lambda j: j.trkPts().Count() > 0 and j.trkPts().First() > 10.0).Count())",
         f"ds.Select(lambda e: {J}.Where(lambda j: j.trkPts().Count() == 0 or j.trkPts().First() > 10.0).Select(lambda j: j.pt()))",
         f"ds.Select(lambda e: Range(0, {J}.Count()).Select(lambda i: i).First() if {J}.Count() > 0 else -1)",
+        # a partial operation INSIDE the test of a conditional / as an operand of the comparison that guards
+        f"ds.Select(lambda e: {J}.Where(lambda j: j.trkPts().Count() > 0).Select(lambda j: j.pt() if j.trkPts().First() > 5.0 else 0.0))",
+        f"ds.Select(lambda e: {J}.Select(lambda j: (j.pt() if j.trkPts().First() > 5.0 else 0.0) if j.trkPts().Count() > 0 else -1.0))",
+        f"ds.SelectMany(lambda e: {J}).Where(lambda j: j.tracks().Count() > 0).Select(lambda j: (1.0 if j.tracks().First().pt() > 10.0 else 2.0, j.pt()))",
+        f"ds.Select(lambda e: (10.0 if {J}.First().pt() > 20.0 else {J}.First().eta()) if {J}.Count() > 0 else -1.0)",
+        f"ds.Select(lambda e: {J}.Select(lambda j: j.trkPts()[1] if j.trkPts()[0] > 5.0 else -2.0))",
+        f"ds.Where(lambda e: {J}.First().pt() > 10.0).Select(lambda e: {J}.Count())",
+        f"ds.Select(lambda e: 1.0 if ({J}.Count() > 0 and {J}.First().pt() > 10.0) else 0.0)",
+        f"ds.Select(lambda e: {J}.Select(lambda j: 1 if (j.trkPts().Count() > 1 and j.trkPts()[1] > j.trkPts().First()) else 0))",
     ]
     if backend == "atlas":
         T += [
